@@ -127,6 +127,7 @@ type vRW struct {
 }
 
 func (c *vRW) Write(p []byte) (int, error) {
+	vPoisonPools() // other goroutines run during I/O: released pool buffers get recycled
 	c.writes++
 	c.out = append(c.out, p...)
 	return len(p), nil
@@ -177,6 +178,7 @@ func (e *vErr) Error() string { return e.s }
 var vErrDst = &vErr{"harness: destination write failed"}
 
 func (d *vDst) Write(p []byte) (int, error) {
+	vPoisonPools() // other goroutines run during I/O: released pool buffers get recycled
 	if d.failAt >= 0 && len(d.calls) >= d.failAt {
 		d.failed = true
 		d.calls = append(d.calls, nil)
@@ -349,7 +351,11 @@ type vCutRW struct {
 	out []byte
 }
 
-func (c *vCutRW) Write(p []byte) (int, error) { c.out = append(c.out, p...); return len(p), nil }
+func (c *vCutRW) Write(p []byte) (int, error) {
+	vPoisonPools()
+	c.out = append(c.out, p...)
+	return len(p), nil
+}
 
 // vChunkSrc returns exactly k bytes (k chosen per call) of data per Read.
 type vChunkSrc struct {
